@@ -91,6 +91,8 @@ PlyHeader(m, fmt, extra) ==
     \o << TL(<<"element", "face", T(Len(m.faces))>>),
           TL(<<"property", "list", IF extra = "biglist" THEN "uint" ELSE "uchar", "int", "vertex_index">>) >>
     \o (IF extra = "tail" THEN << TL(<<"element", "tail", "0">>), TL(<<"property", "int", "q">>) >> ELSE << >>)
+    \* a last element without any property: its rows occupy no bytes at all (not claimed to be a valid file)
+    \o (IF extra = "noprops" THEN << TL(<<"element", "pad", "2">>) >> ELSE << >>)
     \o << TL(<<"end_header">>) >>
 PlyaFile(m, extra) ==
     PlyHeader(m, "ascii", extra)
@@ -125,9 +127,9 @@ Variants ==
       [] Fmt = "stlb" -> { [mesh |-> m, var |-> IF s THEN "solid-header" ELSE "zero-header", lines |-> StlbFile(m, s)] :
                               m \in TriMeshes, s \in BOOLEAN }
       [] Fmt = "plya" -> { [mesh |-> m, var |-> x, lines |-> PlyaFile(m, x)] :
-                              m \in PlyMeshes, x \in {"plain", "comment", "edge", "tail", "biglist"} }
+                              m \in PlyMeshes, x \in {"plain", "comment", "edge", "tail", "biglist"} \cup (IF OnlyValid THEN {} ELSE {"noprops"}) }
       [] Fmt = "plyb" -> { [mesh |-> m, var |-> x \o (IF b THEN "-be" ELSE "-le"), lines |-> PlybFile(m, x, b)] :
-                              m \in PlyMeshes, x \in {"plain", "edge", "tail", "biglist"}, b \in BOOLEAN }
+                              m \in PlyMeshes, x \in {"plain", "edge", "tail", "biglist"} \cup (IF OnlyValid THEN {} ELSE {"noprops"}), b \in BOOLEAN }
       [] Fmt = "csv"  -> { [mesh |-> m, var |-> "plain", lines |-> CsvFile(m)] : m \in TriMeshes }
 
 \* ---------------------------------------------------------------- faults
